@@ -41,6 +41,7 @@ struct Exec {
     monitor_violation: Option<String>,
     seal_reuse: Option<String>,
     fault_log: Vec<(char, usize, IoFault)>,
+    nonempty_reads: usize,
 }
 
 fn exec_once(s: &Scn, input: &[u8], with_faults: bool, monitor: Option<ReleaseMonitor>) -> Exec {
@@ -87,6 +88,7 @@ fn exec_once(s: &Scn, input: &[u8], with_faults: bool, monitor: Option<ReleaseMo
         monitor_violation: t.monitor_violation.clone(),
         seal_reuse,
         fault_log: t.fault_log.clone(),
+        nonempty_reads: t.read_sizes.iter().filter(|n| **n > 0).count(),
     }
 }
 
@@ -123,7 +125,7 @@ impl A2 {
     fn judge(&self, s: &Scn) -> RunOut {
         let (input, pt) = build_input(s);
         let mut out = RunOut::default();
-        out.props = vec!["C10", "C04", "C07", "C09"];
+        out.props = vec!["C10", "C04", "C07", "C08"];
         // fault-free twin
         let twin = exec_once(s, &input, false, monitor_for(s, &input));
         let expected: &[u8] = &twin.run.sink;
@@ -192,6 +194,14 @@ impl A2 {
             // C04 post-run: Ok only with the complete plaintext; Err leaves a whole-chunk prefix
             if e.run.outcome.is_ok() && e.run.sink != pt {
                 out.violations.push(viol("C04", "ok_without_full_plaintext", format!("Ok with {} of {} plaintext bytes", e.run.sink.len(), pt.len())));
+            }
+        }
+        // C08: a file the encryptor reports as complete has exactly header + 32 per chunk + |P| bytes,
+        // the chunk count being the number of non-empty reads it made - also after retried faults
+        if s.dir == Dir::Enc && e.run.outcome.is_ok() {
+            let want = s.mode.header_len() + 32 * e.nonempty_reads.max(1) + pt.len();
+            if e.run.sink.len() != want {
+                out.violations.push(viol("C08", "size_after_faults", format!("encryption reported success with a {}-byte file; {} header + 32 x {} chunks + {} plaintext bytes = {}", e.run.sink.len(), s.mode.header_len(), e.nonempty_reads.max(1), pt.len(), want)));
             }
         }
         if let Some(r) = e.seal_reuse.or(twin.seal_reuse) {
@@ -267,7 +277,7 @@ impl Family for A2 {
         "a2"
     }
     fn properties(&self) -> &'static [&'static str] {
-        &["C10", "C04", "C07"]
+        &["C10", "C04", "C07", "C08"]
     }
     fn budget(&self, tier: Tier, p: &str) -> u64 {
         let q = match p {
